@@ -163,11 +163,19 @@ def hcl_case(rng):
         sources.append(out)
         width[out] = w
     bank = rng.random() < 0.5
+    local_in_width = dict(IN_WIDTH)
     if bank:
         stmts.append("register xY { a : 64 = 0; }")
         targets.append("x_a")
         sources.append("Y_a")          # bank output: a source that depends on nothing
         width["Y_a"] = 64
+        # the bank's control signals, when the program assigns them, are wires like any other: they can be read,
+        # and a loop can run through them (one, the other, or both assigned)
+        for c in rng.choice([[], [], ["bubble_Y"], ["stall_Y"], ["stall_Y", "bubble_Y"]]):
+            targets.append(c)
+            sources.append(c)
+            width[c] = 1
+            local_in_width[c] = 1
     writers = []
     if rng.random() < 0.5:
         writers += ["reg_dstE", "reg_inputE"]
@@ -189,7 +197,7 @@ def hcl_case(rng):
     for t in targets:
         if t in assigned:
             continue
-        tw = IN_WIDTH.get(t, 64)
+        tw = local_in_width.get(t, 64)
         srcs = [s for s in sources if (rank[s] < rank[t] and rng.random() < p_edge) or rng.random() < p_back]
         if t == "pc" and rng.random() < 0.7:
             srcs = [s for s in srcs if s != "i10bytes"]      # keep most programs acyclic through pc
